@@ -20,6 +20,12 @@ const OFF: u64 = 5; // finite, not on the grid (only for inputs and angles)
 
 /// x * scale as a tagged grid numerator; `exact`: require the product to be (almost) an integer
 fn grid(x: f64, scale: f64, exact: bool) -> Value {
+    grid_tol(x, scale, exact, 0.0)
+}
+
+/// `tol`: how far from an integer the product may be and still count as on the grid (0 for the binary grids,
+/// whose products are exact; a tiny subnormal is NOT the grid point 0)
+fn grid_tol(x: f64, scale: f64, exact: bool, tol: f64) -> Value {
     if x.is_nan() {
         return json!([NAN, 0]);
     }
@@ -31,14 +37,14 @@ fn grid(x: f64, scale: f64, exact: bool) -> Value {
         return json!([BIG, if y > 0.0 { 1 } else { -1 }]);
     }
     let r = y.round();
-    if exact && (y - r).abs() > 1e-6 {
+    if exact && (y - r).abs() > tol {
         return json!([OFF, 0]);
     }
     json!([FIN, r as i64])
 }
 
 fn quarter_turns(a: f64) -> Value {
-    grid(a / std::f64::consts::FRAC_PI_2, 1.0, true)
+    grid_tol(a / std::f64::consts::FRAC_PI_2, 1.0, true, 1e-6)
 }
 
 /// a raw value in all its projections: [q1024, quarter turns, q4, integer]
